@@ -8,7 +8,7 @@ use super::*;
 
 /// the log is only appended to
 pub open spec fn log_ext(old: Seq<A2lError>, new: Seq<A2lError>) -> bool {
-    old.len() <= new.len() && new.subrange(0, old.len() as int) == old
+    old.len() <= new.len() && forall|i: int| 0 <= i < old.len() ==> #[trigger] new[i] == old[i]
 }
 
 /// what a `LimitCheckError` says
